@@ -111,6 +111,9 @@ def schema_bij(ctx: Ctx, chk) -> None:
     pers = ctx.cls(PERS)
     save = pers.find_method("save")
     load = pers.find_method("load")
+    if save is None or load is None:
+        raise AnalysisError("anchor vanished: Persistence.save/load")
+    save, load = ctx.inl(save), ctx.inl(load)
     chk.instance(rule)
     cs = Canon(ctx.I, save)
     st = [n for n in ctx.own_nodes(save) if isinstance(n, ast.Assign) and isinstance(n.targets[0], ast.Subscript)]
@@ -351,48 +354,57 @@ def range_of_test(ctx: Ctx, f: FuncInfo, test: ast.expr, var: str):
 
 def legacy1(ctx: Ctx, chk) -> None:
     rule = "LEGACY-1"
-    chk.rule(rule, "the pre-load translation of the legacy pymysensors layout is exactly: sensor_id -> node_id, type -> node_type (None -> 18), None sketch name/version -> '', id -> child_id, type -> child_type")
+    chk.rule(rule, "the pre-load translation of the legacy pymysensors layout, evaluated abstractly over every assignment of {absent, null, falsy value, truthy value} to the legacy keys, is exactly: sensor_id -> node_id, type -> node_type (null -> 18, every other value kept), null sketch name/version -> '' (other values kept), id -> child_id, type -> child_type; all other keys untouched")
+    from . import dictxform as dx
+
+    def node_spec(d: dict) -> dict:
+        out = dict(d)
+        if "sensor_id" in out:
+            out["node_id"] = out.pop("sensor_id")
+        if "type" in out:
+            v = out.pop("type")
+            out["node_type"] = ("const", 18) if v == dx.NONE else v
+        for k in ("sketch_name", "sketch_version"):
+            if k in out and out[k] == dx.NONE:
+                out[k] = ("const", "")
+        return out
+
+    def child_spec(d: dict) -> dict:
+        out = dict(d)
+        if "id" in out:
+            out["child_id"] = out.pop("id")
+        if "type" in out:
+            out["child_type"] = out.pop("type")
+        return out
+
     want = {
-        NODE_S: ({("sensor_id", "node_id"), ("type", "node_type")}, {("type", "18"), ("sketch_name", "''"), ("sketch_version", "''")}),
-        CHILD_S: ({("id", "child_id"), ("type", "child_type")}, set()),
+        NODE_S: (["sensor_id", "type", "sketch_name", "sketch_version"], {"protocol_version": ("in", "protocol_version", True), "children": ("in", "children", False)}, node_spec),
+        CHILD_S: (["id", "type", "description"], {"values": ("in", "values", False)}, child_spec),
     }
-    for sfq, (renames, defaults) in want.items():
+    for sfq, (keys, extra, spec) in want.items():
         s = ctx.cls(sfq)
         hooks = [f for fl in s.methods.values() for f in fl if any(d.split("(")[0].split(".")[-1] == "pre_load" for d in f.decorator_names)]
         if len(hooks) != 1:
             raise AnalysisError(f"LEGACY-1: expected one pre_load hook on {s.name}")
-        f = hooks[0]
-        d = f.positional_params[1]
-        got_ren, got_def = set(), set()
-        for n in ctx.own_nodes(f):
-            if isinstance(n, ast.Assign) and isinstance(n.targets[0], ast.Subscript) and norm(n.targets[0].value) == d and isinstance(n.targets[0].slice, ast.Constant):
-                new = n.targets[0].slice.value
-                v = n.value
-                if isinstance(v, ast.Call) and norm(v.func) == f"{d}.pop" and len(v.args) == 1 and isinstance(v.args[0], ast.Constant):
-                    old = v.args[0].value
-                    # guarded by `old in data`
-                    par = ctx.prog.parents.get(n)
-                    if isinstance(par, ast.If) and norm(par.test) == f"{old!r} in {d}":
-                        got_ren.add((old, new))
-                    else:
-                        got_ren.add((old, new + " (unguarded)"))
-                elif isinstance(v, ast.Constant):
-                    par = ctx.prog.parents.get(n)
-                    cond = norm(par.test) if isinstance(par, ast.If) else ""
-                    if f"{d}[{new!r}] is None" in cond:
-                        got_def.add((new, repr(v.value)))
-                    else:
-                        got_def.add((new, repr(v.value) + f" (condition `{cond}`)"))
+        f = ctx.inl(hooks[0])
+        n = 0
+        bad = None
+        for inp in dx.input_partition(keys, extra):
+            n += 1
+            got = dx.Xform(ctx, f).run(inp)
+            exp = spec(inp)
+            # the only falsy value of a text field is '' itself: `value or ''` leaves it unchanged
+            for k in ("sketch_name", "sketch_version", "description"):
+                for dd in (got, exp):
+                    if dd.get(k) == ("in", k, False):
+                        dd[k] = ("const", "")
+            if got != exp and bad is None:
+                bad = (inp, got, exp)
         chk.instance(rule)
         key = f"{f.fq}::translation"
-        if got_ren == renames and got_def == defaults:
-            chk.ok(rule, key, f"renames {sorted(got_ren)}, defaults {sorted(got_def)}", f.where)
+        if bad is None:
+            chk.ok(rule, key, f"{n} abstract inputs translated as specified", f.where)
         else:
-            chk.refute(rule, key, f"{s.name} translates renames {sorted(got_ren)} / defaults {sorted(got_def)}; the legacy layout needs renames {sorted(renames)} / defaults {sorted(defaults)}", f.where)
-        # the hook returns the (translated) mapping
-        chk.instance(rule)
-        rets = [n for n in ctx.own_nodes(f) if isinstance(n, ast.Return)]
-        if rets and all(isinstance(r.value, ast.Name) and r.value.id == d for r in rets):
-            chk.ok(rule, f"{f.fq}::return", "returns the translated mapping", f.where, sample=False)
-        else:
-            chk.refute(rule, f"{f.fq}::return", "the pre_load hook does not return the translated mapping", f.where)
+            inp, got, exp = bad
+            chk.refute(rule, key, f"{s.name}.{f.name} translates {dx.show(inp)} into {dx.show(got)}; the legacy layout requires {dx.show(exp)}", f.where)
+        chk.notes.setdefault("legacy_inputs", {})[s.name] = n
